@@ -421,8 +421,6 @@ def body_forms(case, ctx):
     if not np.isfinite(kappa) or kappa > 1e8 or not np.all(np.isfinite(mu0)):
         raise Inconclusive("ill-conditioned")
     tol = 1e-9 + 1000 * kappa * EPS
-    if "float32" in f.values():
-        tol = max(tol, 1e-5 * max(kappa, 1.0))
     what = ", ".join(f"{k}={v}" for k, v in f.items())
     pairs = [("posterior mean", mu1, mu0, np.max(np.abs(mu0)) + np.max(np.abs(y)) + 1), ("mean-only path", mo1, mu0, np.max(np.abs(mu0)) + np.max(np.abs(y)) + 1),
              ("posterior covariance", S1, S0, np.max(np.abs(S0)) + 1e-300), ("evidence", np.array([l1, float(lg1)]), np.array([l0, l0]), abs(l0) + m),
